@@ -27,7 +27,9 @@ LEVEL_TEXT = ("Lean theorems over ‚Ñù: the prior term is exactly Œ£ ‚àí(x‚àíŒº)¬
               "parameter dictionary and 0 for absent names; the realised lens parameters are exactly lambda_mst, gamma_ppn "
               "and, when sampled, gamma_in, log_m2l, the lens' own gamma_pl (plus a_ani / beta_inf from the anisotropy draw); "
               "every single-draw evaluation adds the prior on the parameters realised in that draw (inside the population "
-              "average); changing a lens' prior list changes nothing but the added term (same arguments to the data "
+              "average); WHICH parameters a lens has is a static function of its configuration (prior_only_own_parameters: the "
+              "term equals that of the list restricted to Lens.realisedKeys; gamma_pl_prior_needs_a_slope: the fallback slope 2 "
+              "handed to the data likelihood is not a parameter of the lens); changing a lens' prior list changes nothing but the added term (same arguments to the data "
               "likelihood, same draws consumed).  The model is executed against LensLikelihood with and without prior_list; the "
               "statement is evaluated on the real code per draw.")
 LEVEL_NOTE = "trusted: Lean kernel+Mathlib, hand model (validated by correspondence, tol 1e-12); the emitted prior list is covered in C16"
